@@ -81,6 +81,18 @@ pub fn stateful_modules() -> Vec<(&'static str, Vec<u8>)> {
                (call $pair (local.get 0)) (local.set 1) (local.set 2)
                (block (param) (result i64) (i64.add (local.get 1) (i64.extend_i32_u (local.get 2)))))
             (func (export "sel") (param i32 i32 i32) (result i32) (select (local.get 0) (local.get 1) (local.get 2))))"#),
+        ("two-tables-copy", r#"(module
+            (type $t (func (result i32)))
+            (table $dst (export "dst") 4 funcref)
+            (table $src (export "src") 4 funcref)
+            (func $a (result i32) (i32.const 11))
+            (func $b (result i32) (i32.const 22))
+            (elem (table $src) (i32.const 0) func $a $b)
+            (elem (table $dst) (i32.const 2) func $b)
+            (func (export "copy") (param i32 i32 i32) (table.copy $dst $src (local.get 0) (local.get 1) (i32.and (local.get 2) (i32.const 3))))
+            (func (export "call_dst") (param i32) (result i32) (call_indirect $dst (type $t) (local.get 0)))
+            (func (export "call_src") (param i32) (result i32) (call_indirect $src (type $t) (local.get 0)))
+            (func (export "fill") (param i32) (table.fill $src (local.get 0) (ref.null func) (i32.const 1))))"#),
         ("loops-and-branches", r#"(module
             (memory (export "mem") 1)
             (func (export "fill") (param i32) (result i32) (local i32)
